@@ -317,6 +317,17 @@ func (s *State) unreify(t *Term, typ types.Type) Value {
 				return b
 			}
 		}
+		if sl, ok := u.(*types.Slice); ok {
+			// a boxed slice of unknown origin: contents are a function of the box
+			es := sortOfType(sl.Elem())
+			s.X.Ctx.DeclareFunc("unbox.len", []string{SInt}, SInt)
+			s.X.Ctx.DeclareFunc("unbox.arr."+es, []string{SInt}, SArr(SInt, es))
+			ln := App("unbox.len", SInt, t)
+			if len(s.PC) == 0 || !isBoundTerm(t) {
+				s.Assume(Ge(ln, IntLit(0)))
+			}
+			return &SliceVal{Arr: App("unbox.arr."+es, SArr(SInt, es), t), Len: ln, Cap: ln, Elem: sl.Elem()}
+		}
 		// opaque aggregate: expand lazily as fresh
 		return s.freshValue("unboxed", typ)
 	}
@@ -554,4 +565,17 @@ func (s *State) valueEq(a, b Value) *Term {
 	}
 	unsupported("valueEq %T", a)
 	return nil
+}
+
+// isBoundTerm reports whether t mentions a quantifier-bound variable (q_*).
+func isBoundTerm(t *Term) bool {
+	if t.IsAtom() {
+		return strings.HasPrefix(t.Op, "q_")
+	}
+	for _, a := range t.Args {
+		if isBoundTerm(a) {
+			return true
+		}
+	}
+	return false
 }
